@@ -44,7 +44,19 @@ def make_input(r, kind, solid_only=False, with_cpal=False):
             plain = kind == "colr0" or solid_only
             srcs = [svggen.svg_source(r, g, None, gradients=not plain, groups=not plain, vb=(0, 0, r.choice([100, 128, 150]), r.choice([100, 128])))[0] for g in range(r.randint(1, 3))]
         srcs = [s.replace("currentColor", "#223344") for s in srcs]
+        gap = False
+        if len(srcs) >= 2 and r.random() < 0.35:
+            # a source that paints nothing, between two that do: it gets a glyph id but no colour record and no
+            # bitmap, so the colour glyphs are no longer one run of consecutive ids
+            srcs.insert(r.randint(1, len(srcs) - 1), '<svg xmlns="http://www.w3.org/2000/svg" viewBox="0 0 100 100"></svg>')
+            gap = True
         seqs = svggen.sequences(r, len(srcs), long_names=False)
+        if gap:
+            seqs = [tuple(q[:1]) for q in seqs]  # single codepoints: glyph order follows the source order
+            seqs = sorted(set(seqs))
+            while len(seqs) < len(srcs):
+                seqs.append((0xF0000 + len(seqs),))
+            seqs = sorted(seqs)
         cfg = svggen.font_config(r, (fmt,), user_transform=False, small_upem=False)
         cfg["keep_glyph_names"] = r.random() < 0.5
         cfg["clip_to_viewbox"] = True
@@ -61,7 +73,7 @@ def make_input(r, kind, solid_only=False, with_cpal=False):
             bio = io.BytesIO()
             f.save(bio)
             data = bio.getvalue()
-        return data, {"kind": kind + ("+cpal" if with_cpal else ""), "config": cfg, "sequences": [list(q) for q in seqs]}
+        return data, {"kind": kind + ("+cpal" if with_cpal else ""), "config": cfg, "sequences": [list(q) for q in seqs], "blank_glyph_between_colour_glyphs": gap}
     # third-party style COLRv1
     from fontTools.colorLib.builder import buildCOLR, buildCPAL
     from fontTools.feaLib.builder import addOpenTypeFeaturesFromString
